@@ -253,7 +253,7 @@ fn gen_oversize_msg(t: &mut Tape) -> SMsg {
         avps.push(SAvp { attr: [7u16, 11, 37][t.below(3)], hidden: false, body: Body::Blob(t.blob_cheap(take - 6)) });
         remaining = remaining.saturating_sub(take);
     }
-    SMsg::Control { length: 0, tunnel: t.b_u16(), session: t.b_u16(), ns: t.b_u16(), nr: t.b_u16(), avps }
+    SMsg::Control { length: gen_stale_length(t), tunnel: t.b_u16(), session: t.b_u16(), ns: t.b_u16(), nr: t.b_u16(), avps }
 }
 
 /// hide() at the limits: originals of 1022..1030 octets and paddings that push the hidden value across 1017 octets
